@@ -71,10 +71,9 @@ fn template(v: (u64, u64, u64), spelling: &str, placement: &str, using_level: u8
 }
 
 const LARGE_COMPONENTS: &[(u64, u64, u64)] = &[
-    (0, 7, 99), (0, 7, 100), (0, 7, 104), (0, 7, 255), (0, 7, 256), (0, 7, 804), (0, 7, 1000), (0, 7, 65535), (0, 7, 65536), (0, 7, 99999999),
-    (0, 6, 204), (0, 6, 404), (0, 0, 804), (0, 0, 800), (0, 0, 80400), (0, 8, 99), (0, 8, 100), (0, 8, 255), (0, 8, 256), (0, 8, 65536),
-    (0, 79, 0), (0, 80, 0), (0, 100, 0), (0, 255, 0), (0, 256, 3), (0, 800, 0), (0, 65536, 0), (0, 99999999, 0),
-    (2, 0, 0), (10, 0, 0), (100, 0, 0), (256, 0, 0), (65536, 0, 0), (99999999, 0, 0), (99999999, 99999999, 99999999),
+    (0, 7, 99), (0, 7, 100), (0, 7, 104), (0, 7, 199), (0, 7, 204), (0, 7, 255), (0, 6, 204), (0, 6, 255), (0, 5, 255), (0, 0, 255),
+    (0, 8, 99), (0, 8, 100), (0, 8, 104), (0, 8, 255), (0, 79, 0), (0, 80, 0), (0, 84, 0), (0, 100, 0), (0, 255, 0), (0, 255, 255),
+    (2, 0, 0), (8, 0, 0), (10, 0, 0), (100, 0, 0), (255, 0, 0), (255, 255, 255),
 ];
 
 fn near_threshold(v: (u64, u64, u64)) -> bool {
@@ -243,7 +242,7 @@ pub fn run(env: &Env) -> i32 {
     });
     let neighbours = st.sets.get("threshold_neighbours_and_misleading_versions").map(|s| s.len()).unwrap_or(0) as u64;
     let meta = Meta {
-        rule: format!("cases = (version triple, operator spelling, placement of unrelated pragmas, body); all {} triples 0.0.0..1.12.40 plus triples with components of 3 to 8 digits are enumerated (quick: 4 spelling/placement combinations per triple plus the full 9x6 product for threshold neighbours and misleading versions; thorough: full product) with a fixed template body (SafeMath calls add/sub/mul/div/mod, requires with 0/1/31/32/33/64-byte strings, non-string and missing messages) plus random bodies; oracle = version model on (major, minor, patch) triples with thresholds 0.8.0 and 0.8.4, never both SafeMath detectors, monotone activity along sorted versions; non-trivial = version within one step of a threshold or misleading by minor/patch alone (0.8.10, 0.9.0, 0.10.3, 1.0.0, 1.2.4 ...), or an unrelated pragma precedes the solidity pragma", triples.len()),
+        rule: format!("cases = (version triple, operator spelling, placement of unrelated pragmas, body); all {} triples 0.0.0..1.12.40 plus 26 triples with two- and three-digit components up to 255 are enumerated (quick: 4 spelling/placement combinations per triple plus the full 9x6 product for threshold neighbours and misleading versions; thorough: full product) with a fixed template body (SafeMath calls add/sub/mul/div/mod, requires with 0/1/31/32/33/64-byte strings, non-string and missing messages) plus random bodies; oracle = version model on (major, minor, patch) triples with thresholds 0.8.0 and 0.8.4, never both SafeMath detectors, monotone activity along sorted versions; non-trivial = version within one step of a threshold or misleading by minor/patch alone (0.8.10, 0.9.0, 0.10.3, 1.0.0, 1.2.4 ...), or an unrelated pragma precedes the solidity pragma", triples.len()),
         assumptions: vec!["domain: exactly one 'pragma solidity [op]X.Y.Z'; files outside it (ranges, several solidity pragmas) only relax the oracle to 'may'".into()],
         extra: json!({"exhaustive_subdomains": ["all version triples major 0..1, minor 0..12, patch 0..40"]}),
         floors: vec![
